@@ -175,6 +175,9 @@ func (c *c19) multisig() {
 		"ed,secp,ed":     {single(5), single(100), single(7)},
 		"ed,nested,secp": {single(5), nestedC, single(101)},
 		"ed,ed":          {single(5), single(6)},
+		// a key listed more than once signs in each of its positions
+		"ed,ed,first-key-again":     {single(5), single(6), single(5)},
+		"nested,ed,same-nested-key": {nestedC, single(5), nestedC},
 	}
 	foreign := single(3)
 	n := int64(0)
@@ -217,7 +220,8 @@ func (c *c19) multisig() {
 					for i, ci := range idx {
 						list[i] = cands[ci]
 						desc = append(desc, candDesc[ci])
-						if L == nk && ci != i {
+						// (a key listed twice: its signature is in place in either of its positions)
+						if L == nk && ci != i && !(ci < nk && bytes.Equal(pks[ci].Bytes(), pks[i].Bytes())) {
 							want = false
 						}
 					}
@@ -314,7 +318,7 @@ func (c *c19) multisig() {
 // keybase operation sequences
 
 type kbOp struct {
-	kind string // importobj create update delete sign exportobj exportimport
+	kind string // importobj create update delete sign exportobj exportimport coinbase setcoinbase
 	key  int    // key index for K1/K2 (5 or 6); -1 = the created key
 	p1   string // passphrase used to open
 	p2   string // new passphrase / encryption passphrase
@@ -345,6 +349,9 @@ func kbAlphabet() []kbOp {
 		{kind: "exportimport", key: 5, p1: "bad", p2: "bad", p3: "bad"},
 		// passphrases that differ only by surrounding whitespace are different passphrases
 		{kind: "importobj", key: 6, p1: wsPass}, {kind: "sign", key: 6, p1: wsPass}, {kind: "sign", key: 6, p1: "pw"}, {kind: "sign", key: 5, p1: "pw\n"},
+		// the keybase's "coinbase" selection: choosing or reading it is not an operation on the stored
+		// keys (index 33, 34: appended so that the index lists below stay valid)
+		{kind: "coinbase"}, {kind: "setcoinbase", key: 5},
 	}
 }
 
@@ -461,6 +468,13 @@ func (c *c19) runKbProgramFrom(mk func() (keys.Keybase, func()), ops []kbOp, pro
 					return
 				}
 			}
+		case "coinbase":
+			// which key is reported is the keybase's business; the call must leave the stored keys alone
+			_, err = kb1.GetCoinbase()
+			okWant = err == nil
+		case "setcoinbase":
+			okWant = exists
+			err = kb1.SetCoinbase(addr)
 		case "exportobj":
 			okWant = exists && cur == o.p1
 			var pk crypto.PrivateKey
@@ -603,7 +617,7 @@ func (c *c19) keybase(tier string) {
 		// quick tier: all programs of length 3 over a reduced alphabet (one key, the passphrase life cycle)
 		var small []int
 		for i, o := range ops {
-			if o.key == 5 && (o.kind == "importobj" && o.p1 == "pw" || o.kind == "update" && o.p1 != "" || o.kind == "delete" && o.p1 != "new" || o.kind == "sign" || o.kind == "exportobj" && o.p1 == "pw" || o.kind == "exportimport" && o.p3 == "enc" && o.p1 == "pw") {
+			if o.key == 5 && (o.kind == "importobj" && o.p1 == "pw" || o.kind == "update" && o.p1 != "" || o.kind == "delete" && o.p1 != "new" || o.kind == "sign" || o.kind == "exportobj" && o.p1 == "pw" || o.kind == "exportimport" && o.p3 == "enc" && o.p1 == "pw") || o.kind == "coinbase" {
 				small = append(small, i)
 			}
 		}
@@ -638,7 +652,7 @@ func (c *c19) keybase(tier string) {
 		smu.Unlock()
 		return keys.New("kb", d), func() { os.RemoveAll(d) }
 	}
-	small := []int{0, 4, 5, 7, 9, 11, 14, 16, 19, 22, 23}
+	small := []int{0, 4, 5, 7, 9, 11, 14, 16, 19, 22, 23, 33}
 	n = 0
 	for _, a := range small {
 		for _, b := range small {
